@@ -313,12 +313,29 @@ func c06(c *Ctx) {
 	nref := 0
 	for _, ret := range core.Returns(m.put) {
 		ev := core.ResolveSpill(ret.Results[len(ret.Results)-1])
-		u, ok := ev.(*ssa.UnOp)
-		if !ok {
+		isRefusal := func(v ssa.Value) bool {
+			u, ok := core.Unwrap(v).(*ssa.UnOp)
+			if !ok {
+				return false
+			}
+			g, ok := u.X.(*ssa.Global)
+			return ok && g.Name() == "ErrInsufficientRadius"
+		}
+		if ph, isPhi := ev.(*ssa.Phi); isPhi {
+			// the verdict of a written-out helper: the refusal error arrives over one edge of the
+			// merged error value; that edge must start on the false side of the radius test
+			for ei, e := range ph.Edges {
+				if !isRefusal(e) {
+					continue
+				}
+				nref++
+				pred := ph.Block().Preds[ei]
+				w := core.InstrGuarded(pred.Instrs[len(pred.Instrs)-1], m.radiusGate(false), nil)
+				r.Check(w == nil, "R4.refusal", core.FuncName(m.put)+" insufficient-radius", p.Pos(core.InstrPos(ret)), "returned only on the false edge of the radius test", "ErrInsufficientRadius can be returned although the radius test succeeded: "+p.PathString(w))
+			}
 			continue
 		}
-		g, ok := u.X.(*ssa.Global)
-		if !ok || g.Name() != "ErrInsufficientRadius" {
+		if !isRefusal(ev) {
 			continue
 		}
 		nref++
@@ -643,6 +660,11 @@ func c17(c *Ctx) {
 			return
 		}
 		if _, isDefer := ci.(*ssa.Defer); isDefer {
+			return
+		}
+		if id == iterPfx+"Close" {
+			// releasing the read-only iterator (explicitly instead of by defer): its error says
+			// nothing about what was read through it
 			return
 		}
 		nerr++
